@@ -17,6 +17,7 @@
    as before, and [ext_wf]: an ACCEPTED update / undo hands back a well-formed model with a Clean
    scratch state (C12's business: the recompiled d-DNNF is a d-DNNF). *)
 From Coq Require Import List ZArith Bool String Ascii Lia.
+From DD Require Import Proofs.Live.
 From DD Require Import Model.Circuit Model.Query Model.Enumerate Model.StreamMsg
   Proofs.Semantics Proofs.CountsA Proofs.QueryDefs Proofs.C06Node Proofs.C06Sort Proofs.C06Page
   Proofs.C06Final Proofs.StreamMsgDefs Proofs.StreamMsgParse Proofs.StreamMsgExec Proofs.StreamMsgMain.
@@ -48,7 +49,7 @@ Proof.
   split; [exact Hr|]. intros Hpos. specialize (Hts Hpos).
   pose proof (wfq_wf C n HQ) as HWF.
   unfold rt, rootn. cbn [circ build]. fold (root C).
-  rewrite Hts; [|apply root_lt; apply HWF|now apply (root_not_true C n)].
+  rewrite Hts; [|apply root_lt; apply HWF|now apply (root_not_true C n)|apply reach_root].
   rewrite (countsA_MCA C n);
     [|exact HWF|eapply in_range_same_set; [apply same_set_sym, enum_key_In|exact HA]].
   apply MCA_same_set. apply enum_key_In.
